@@ -213,6 +213,19 @@ func n17Start() ([]grpc.DialOption, func()) {
 	}
 }
 
+// a context that is already cancelled
+type m17DoneCtx struct{ context.Context }
+
+func (m17DoneCtx) Err() error { return context.Canceled }
+func (m17DoneCtx) Done() <-chan struct{} {
+	if vIsNative() {
+		c := make(chan struct{})
+		close(c)
+		return c
+	}
+	return nil
+}
+
 // ---- harness ------------------------------------------------------------
 
 func H17_failover() {
@@ -249,6 +262,10 @@ func H17_failover() {
 	s17ReqSnap = pb.SSHCertificateSigningRequest{KeyMeta: &pb.KeyMeta{Identifier: "id"}, Principals: []string{"user"}, PublicKey: "pk", Validity: 3600, KeyId: "kid"}
 	s := &Signer{endpoints: eps}
 	ctx := context.Background()
+	ctxDone := vChoose(2, "context-already-done") == 1
+	if ctxDone {
+		ctx = m17DoneCtx{context.Background()}
+	}
 	if vIsNative() {
 		opts, stop := n17Start()
 		defer stop()
@@ -262,6 +279,10 @@ func H17_failover() {
 	certs, comments, err := s.Sign(ctx, req)
 
 	vFact("endpoints", n)
+	if ctxDone {
+		vAssert(err != nil || len(certs) > 0, "C17.never-an-empty-success")
+		return
+	}
 	// contacted strictly in order, without gaps, and not beyond the first success
 	last := n - 1
 	if firstOK >= 0 {
@@ -274,6 +295,11 @@ func H17_failover() {
 	vAssert(m17ReqOK, "C17.request-passed-unmodified")
 	if !vIsNative() {
 		vAssert(s17SameRequest(req), "C17.request-left-unmodified")
+	}
+	if ctxDone {
+		// whatever a cancelled context does to the attempts, the outcome is never an empty success
+		vAssert(err != nil || len(certs) > 0, "C17.never-an-empty-success")
+		return
 	}
 	if firstOK < 0 {
 		vAssert(err != nil, "C17.exhaustion-is-an-error")
